@@ -4,7 +4,7 @@ from . import _sched
 
 PROP = "C07"
 MODULES = ["XpmVerif.Properties.C07"]
-GEN = dict(max_jobs=7, max_tokens=1, resubmit=False, markers=True, fail_p=0.4)
+GEN = dict(max_jobs=7, max_tokens=1, resubmit=True, markers=True, fail_p=0.4)
 RULE = ('random DAG workloads with many failing jobs (p=0.4), failures delivered before / while / after dependents are submitted, x random schedules + exhaustive schedules of 5 small workloads; monitors: dependents of a failed job are never launched and end in error, jobs without failed ancestor are not cancelled, wait() raises iff some job failed; non-trivial = some dependency and >= 2 out-of-FIFO deliveries')
 
 
